@@ -19,7 +19,10 @@ MUTANTS = [
  ("apply", PM, "forward_indexes.interleave(backward_indexes)", "backward_indexes.interleave(forward_indexes)", ["C02.try_apply"], ["C01", "C03", "C04", "C20"]),
  ("apply", PM, "HunkPosition::Middle => hunk_view.remove_target_line() + last_hunk_offset,", "HunkPosition::Middle => hunk_view.remove_target_line(),", ["C02.try_apply"], ["C01", "C03", "C04"]),
  ("apply", PM, "last_frozen_line = line + hunk_view.remove_content().len() as isize - hunk_view.suffix_context() as isize;",
-               "last_frozen_line = line + hunk_view.remove_content().len() as isize;", ["C02.levels"], ["C03", "C04"]),
+               "last_frozen_line = line + hunk_view.remove_content().len() as isize;", ["C02.levels"], ["C03", "C04"],
+               ["C03.order", "C03.apply_post", "C04.rollback_reports", "C04.rollback_content"]),   # frozen line too HIGH: C03 still holds and must stay proved
+ ("apply", PM, "last_frozen_line = line + hunk_view.remove_content().len() as isize - hunk_view.suffix_context() as isize;",
+               "last_frozen_line = line;", ["C02.levels", "C03.order"], []),                       # frozen line too LOW: changed regions may overlap
  ("apply", PM, "modification_offset += *line_count_diff;", "modification_offset -= *line_count_diff;", ["C03.apply_post"], ["C02"]),
  ("apply", PM, "let first_changed_line = (target_line + prefix_context as isize) as usize;",
                "let first_changed_line = (target_line + suffix_context as isize) as usize;", ["C03.apply_post"], ["C02"]),
@@ -73,7 +76,8 @@ def test_span_resolution():
 
 
 def run_mutant(m):
-    unit, f, old, new, must_fail, must_not = m
+    unit, f, old, new, must_fail, must_not = m[:6]
+    must_stay = m[6] if len(m) > 6 else []     # obligations that must stay PROVED: neither failed nor conditional
     d = tempfile.mkdtemp(prefix="selftest_", dir=os.path.join(V, "work"))
     try:
         shutil.copytree("/repo/src", os.path.join(d, "src"))
@@ -97,8 +101,9 @@ def run_mutant(m):
         miss = [l for l in must_fail if l not in failed]
         charged = sorted({p for v in failed.values() for p in v["props"]})
         smear = [p for p in must_not if p in charged]
-        if miss or smear:
-            return "WRONG attribution: failed=%s missing=%s wrongly_charged=%s" % (sorted(failed), miss, smear)
+        lost = [l for l in must_stay if l not in r.obligations or not r.obligations[l]["discharged"] or r.obligations[l].get("conditional")]
+        if miss or smear or lost:
+            return "WRONG attribution: failed=%s missing=%s wrongly_charged=%s not_proved_any_more=%s" % (sorted(failed), miss, smear, lost)
         return "ok (%s -> %s)" % (", ".join(sorted(failed)), ",".join(charged))
     finally:
         shutil.rmtree(d, ignore_errors=True)
